@@ -77,6 +77,7 @@ type Bytes struct {
 	Off, Len, Cap *smt.Term
 	Nil           bool
 	Blob          *Blob // non-nil when this []byte is a codec blob
+	Sig           *SigInfo // non-nil when this []byte is a signature made by vSign
 	Segs          []KItem // non-nil when this []byte is a structured key (compkey summary)
 }
 
@@ -239,7 +240,7 @@ func (e *Exec) zero(t types.Type) Value {
 			return smt.False
 		}
 		if isString(t) {
-			return Str{Fn: FnConst{nil}, Off: c0, Len: c0}
+			return Str{Fn: FnConst{""}, Off: c0, Len: c0}
 		}
 		if u.Kind() == types.UnsafePointer {
 			return Ptr{}
